@@ -655,7 +655,9 @@ impl BitSeq {
 
     pub fn weight(&self) -> (r: usize)
         ensures r == cnt(self.val, 64), r <= 64,
-    //@body impl/BitSeq/weight
+    //@body impl/BitSeq/weight loops=1
+    //@+ loop 0 header
+    //@| while v > 0
     //@+ sig
     //@| fn weight(&self) -> usize
     //@+ loop 0
